@@ -119,7 +119,8 @@ EvalNode(n, vals) ==
             [] n.op = "Mul" -> IF A(1).dt = "i" THEN Map2(A(1), A(2), "i", LAMBDA x, y : x * y) ELSE BinF(A(1), A(2))
             [] n.op = "Abs" -> IF A(1).dt = "i" THEN Map1(A(1), "i", AbsI) ELSE A(1)
             [] n.op = "Neg" -> IF A(1).dt = "i" THEN Map1(A(1), "i", LAMBDA x : -x) ELSE A(1)
-            [] n.op \in {"Relu", "Identity", "Cast"} -> A(1)
+            [] n.op \in {"Relu", "Identity"} -> A(1)
+            [] n.op = "Cast" -> [A(1) EXCEPT !.dt = IF n.p[1] = 6 THEN "j" ELSE "i"]        \* "j": int32 (values are small)
             [] n.op = "Concat" -> IF A(1).dt = "i" THEN Concat([j \in 1..na |-> A(j)], n.p[1])
                                   ELSE ConcatF([j \in 1..na |-> A(j)], n.p[1])
             [] n.op = "Squeeze" -> SqueezeAll(A(1))
@@ -170,7 +171,7 @@ Untyped(o) == o.t = "r" /\ sshape[o.i] = NOTYPE
 NOSV == << <<-9997>> >>
 \* OptimizerState.get_shape_value: a small int64 constant (1-D only) or a Shape in the map
 ShapeValue(o) == LET c == ConstOf(o) IN
-                 IF c # NOC THEN (IF Rank(c) = 1 THEN LitShape(c.data) ELSE NOSV)
+                 IF c # NOC /\ c.dt = "i" THEN (IF Rank(c) = 1 THEN LitShape(c.data) ELSE NOSV)
                  ELSE IF o.t = "r" /\ symmap[o.i].k = "shape" THEN symmap[o.i].d ELSE NOSV
 \* _same_shape: unknown dims in the first shape are never equal to anything
 SameShape(s1, s2) == (\A i \in 1..Len(s1) : ~IsUnk(s1[i])) /\ s1 = s2
@@ -304,6 +305,8 @@ GenArithI == Building /\ \E op \in (IF Rich = 1 THEN {"Add"} ELSE {"Add", "Sub",
               /\ Push(Node(op, <<R(s), o>>, <<>>), MetaI(Max2(meta[s].rank, RankOf(o)), Max2(meta[s].len, LenOf(o))))
 GenUnaryI == Building /\ \E op \in (IF Rich = 1 THEN {"Abs", "Cast"} ELSE {"Abs", "Cast", "Neg", "Identity"}), s \in IntVals :
               Push(Node(op, <<R(s)>>, IF op = "Cast" THEN <<7>> ELSE <<>>), meta[s])
+GenCast32 == Building /\ \E s \in IntVals : Push(Node("Cast", <<R(s)>>, <<6>>), [meta[s] EXCEPT !.k = "j"])
+GenCastBack == Building /\ \E s \in {i \in 1..Len(meta) : meta[i].k = "j"} : Push(Node("Cast", <<R(s)>>, <<7>>), [meta[s] EXCEPT !.k = "i"])
 GenConcatI == Building /\ \E a \in {R(i) : i \in VecVals}, b \in {R(i) : i \in VecVals} \cup {C(c) : c \in ConcatConsts}, sw \in {0, 1} :
               /\ LenOf(a) + LenOf(b) <= 4
               /\ (sw = 1 => b.t = "c")            \* constant piece first
@@ -339,7 +342,7 @@ GenSliceD == Building /\ \E x \in FocusData, ax \in {0, 1}, r \in SliceRanges :
               /\ ax < meta[x].rank
               /\ Push(Node("Slice", <<R(x)>>, <<ax>> \o r), meta[x])
 
-Gen == \/ GenShape \/ GenSize \/ GenGather \/ GenArithI \/ GenUnaryI \/ GenConcatI \/ GenConcat3 \/ GenSqueezeI
+Gen == \/ GenShape \/ GenSize \/ GenGather \/ GenArithI \/ GenUnaryI \/ GenCast32 \/ GenCastBack \/ GenConcatI \/ GenConcat3 \/ GenSqueezeI
        \/ GenReshapeI \/ GenSliceI \/ GenUnaryD \/ GenAddD \/ GenReshapeD \/ GenExpandD \/ GenConcatD \/ GenSliceD
 
 -----------------------------------------------------------------------------
@@ -460,9 +463,11 @@ EvalReshape ==
      IF sv # NOSV /\ in # NOSH /\ SameShape(in, sv) THEN Replace(IdentityOf(cur.a[1]), NOSYM, {})
      ELSE NoReplace(Propagated)
 EvalSqueeze == Evaluating("Squeeze") /\ NoReplace(Propagated)
-EvalCast ==      \* the only Cast in the menu is int64 -> int64
+EvalCast ==      \* Identity when the input already has the target element type (int64 = 7, int32 = 6)
   /\ Evaluating("Cast")
-  /\ IF cur.p[1] = 7 THEN Replace(IdentityOf(cur.a[1]), NOSYM, {}) ELSE NoReplace(NOSYM)
+  /\ LET o == cur.a[1]
+         indt == IF o.t = "c" \/ meta[o.i].k = "i" THEN 7 ELSE IF meta[o.i].k = "j" THEN 6 ELSE 1
+     IN IF cur.p[1] = indt THEN Replace(IdentityOf(o), NOSYM, {}) ELSE NoReplace(NOSYM)
 \* Identity: backward shape inference (input.shape := merge(input.shape, output.shape)), output := input
 EvalIdentity ==
   /\ Evaluating("Identity")
